@@ -274,6 +274,50 @@ class Run:
                             'corrupted_copies_rejected': len(corrupted), 'tlc_states': stats['distinct'],
                             'wall_s': stats['wall_s']})
 
+    def corpus_model(self, adapter='harness.replay_model'):
+        """Regression corpus (input only): the action sequences of past divergences are handed to TLC, which must accept
+        them as ModelSM behaviours and recomputes the expected observation of every step (Trace_Model in emit mode);
+        they are then replayed first. The corpus can never become a second oracle, and a reverted fix is caught at once."""
+        import glob
+        from harness import validate
+        cdir = os.path.join(VERIF, 'corpus', self.pid)
+        entries = []
+        for f in sorted(glob.glob(os.path.join(cdir, '*.json'))):
+            with open(f) as fh:
+                e = json.load(fh)
+            e['file'] = os.path.basename(f)
+            entries.append(e)
+        if not entries:
+            return
+        langs = self.libs()
+        by_lang = {}
+        for i, e in enumerate(entries):
+            evs = [dict(x, ep=x.get('ep', [])) if x.get('op') == 'AddAttacker' else x for x in e['events']]
+            by_lang.setdefault(e['lang'], []).append({'id': i + 1, 'events': evs, 'file': e['file']})
+        eng = replay.Engine(adapter, {'langs': langs}, workers=2)
+        n = 0
+        try:
+            for lang, ts in by_lang.items():
+                res = validate.validate_model_traces(langs[lang], ts, emit=True)
+                stats = res.pop('__stats__')
+                if '__violation__' in res:
+                    raise tlc.MachineryError('corpus: specification invariant violated: ' + res['__violation__'][:500])
+                for t in ts:
+                    v = res[t['id']]
+                    if v['status'] != 'accepted' or not v.get('hist'):
+                        raise tlc.MachineryError('corpus entry %s is no longer a behaviour of the specification (stopped at event %s)'
+                                                 % (t['file'], v['pos']))
+                    eng.feed({'lang': lang, 'hist': v['hist']})
+                    n += 1
+                self.states += stats['distinct']
+                self.transitions += stats['generated']
+        finally:
+            tot = eng.finish()
+        if tot['errors']:
+            raise tlc.MachineryError('corpus replay error: %s' % tot['errors'][0])
+        self.absorb(tot)
+        self.phases.append({'phase': 'corpus', 'entries': n, 'divergences': len(tot['div'])})
+
     def apalache(self, module, obligations, timeout=600):
         """spec-level proof obligations discharged by Apalache (inductive invariant): each is (init, inv, length)"""
         import subprocess
